@@ -164,6 +164,10 @@ class DisplacementMove(
                 return self.register_failure()
 
             self.to_displace_labels = context.rng.choice(self.unique_labels)
+        elif self.to_displace_labels not in self.unique_labels:
+            # a pre-selected label must be eligible like a drawn one: atoms with a negative
+            # label are never displaced, and a label no atom carries leaves nothing to move
+            return self.register_failure()
 
         (context._moving_indices,) = np.where(self.labels == self.to_displace_labels)
 
